@@ -395,3 +395,47 @@ func (v *Value) Lookup(path []interface{}) *Value {
 	}
 	return cur
 }
+
+// UnterminatedTail reports whether s ends inside a string literal that is never
+// closed, and if so the offset of its opening quote and whether the input ends
+// in a dangling backslash.
+func UnterminatedTail(s string) (open int, dangling bool, ok bool) {
+	in := false
+	for i := 0; i < len(s); i++ {
+		c := s[i]
+		if in {
+			if c == '\\' {
+				if i+1 >= len(s) {
+					return open, true, true
+				}
+				i++
+			} else if c == '"' {
+				in = false
+			}
+			continue
+		}
+		if c == '"' {
+			in = true
+			open = i
+		}
+	}
+	return open, false, in
+}
+
+// FirstError returns the offset at which the lenient (StructOK) parser gives
+// up: the start of the offending token, len(s) for a premature end, the
+// position of the first trailing non-space byte, or -1 for a well-formed
+// document.
+func FirstError(s string) int {
+	p := &parser{s: s, lenient: true, maxd: 1 << 30}
+	p.ws()
+	v := p.value()
+	if v == nil {
+		return p.i
+	}
+	p.ws()
+	if p.i != len(s) {
+		return p.i
+	}
+	return -1
+}
